@@ -94,6 +94,8 @@ pub trait ExFromStr: Sized {
 pub uninterp spec fn parse_spec<F>(s: Seq<char>) -> std::option::Option<F>;
 pub assume_specification<F: core::str::FromStr>[ str::parse::<F> ](s: &str) -> (r: std::result::Result<F, F::Err>)
     ensures match r { Ok(v) => parse_spec::<F>(s@) == std::option::Option::Some(v), Err(_) => parse_spec::<F>(s@) is None };
+pub uninterp spec fn eq_ignore_ascii_case_spec(a: Seq<char>, b: Seq<char>) -> bool;
+pub assume_specification[ str::eq_ignore_ascii_case ](a: &str, b: &str) -> (r: bool) ensures r == eq_ignore_ascii_case_spec(a@, b@);
 pub uninterp spec fn trim_spec(s: Seq<char>) -> Seq<char>;
 pub assume_specification[ str::trim ](s: &str) -> (r: &str) ensures r@ == trim_spec(s@);
 }
